@@ -189,7 +189,7 @@ def run_impl(text: str, seed: Optional[int] = None, scales: Optional[List[Any]] 
     try:
         cm = M.compile_markdown(text)
     except Exception as e:
-        return {"exception": type(e).__name__, "msg": str(e)[:200]}
+        return {"exception": type(e).__name__, "msg": str(e)[:200], "placeholders": rec}
     finally:
         M.generate_placeholder = orig
     try:
@@ -348,7 +348,19 @@ def oracle(gd: Optional[mdgen.GenDoc], text: str, impl: Dict[str, Any]) -> Tuple
     """The property's wording checked on what the implementation returned.  -> (violation, notes)."""
     notes: List[str] = []
     if "exception" in impl:
-        return f"compile_markdown / render raised {impl['exception']}: {impl.get('msg', '')}", notes
+        # allowed only when compiling the block texts directly (group by group, in order) fails the same way
+        try:
+            _pout, ptab0 = plain_structure(gd.plain if gd is not None else text)
+            pb0 = [(t[1], t[2], t[3]) for t in ptab0 if t[0] == "code" and is_recipe_block(t[1], t[2])]
+            direct_compile(split_groups(pb0))
+            expected = None
+        except Exception as e:
+            expected = type(e).__name__
+        if expected is not None and expected == impl["exception"]:
+            notes.append("compile-error:" + expected)
+            return None, notes
+        return (f"compile_markdown / render raised {impl['exception']}: {impl.get('msg', '')} "
+                f"(compiling the block texts directly: {expected or 'no error'})"), notes
     cm, htmls = impl["cm"], impl["htmls"]
     SCALES = impl["scales"]
     # (a) no placeholder residue
@@ -366,6 +378,11 @@ def oracle(gd: Optional[mdgen.GenDoc], text: str, impl: Dict[str, Any]) -> Tuple
             return f"output differs under random.seed({sd})", notes
         if sd == 1:
             _M().compile_markdown("# Other for 3\n\n    2 eggs\n\n{4} words\n").render(2)
+            # rendering the SAME object again, in another order of factors, gives the same pages
+            cm2 = again["cm"]
+            for k, h in reversed(list(zip(SCALES, htmls))):
+                if cm2.render(k) != h or cm.render(k) != h:
+                    return f"render({k}) on an already rendered MarkdownRecipe differs from a fresh compile + render", notes
     # (c) the recipe blocks are exactly the indented / recipe / new-recipe blocks of plain CommonMark, in
     #     order, grouped by new-recipe, and equal compiling the block texts directly
     try:
@@ -378,7 +395,8 @@ def oracle(gd: Optional[mdgen.GenDoc], text: str, impl: Dict[str, Any]) -> Tuple
     try:
         direct = direct_compile(groups)
     except Exception as e:
-        return f"compile_markdown accepted blocks that compile() rejects directly: {type(e).__name__}", notes
+        return (f"compile_markdown returned a result although compiling the block texts directly raises "
+                f"{type(e).__name__}"), notes
     if not typed_equal_recipes(cm.recipes, direct):
         return ("the compiled recipes differ from compiling the indented / recipe / new-recipe block texts directly "
                 "(grouped at new-recipe)"), notes
@@ -479,26 +497,37 @@ def doc_case(text: str, gd: Optional[mdgen.GenDoc], tags: List[str], index: Opti
                       "braces": [[b.body, None if b.parts is None else [p if isinstance(p, str) else c.num_json(p) for p in b.parts],
                                   b.prose, b.where, b.alt] for b in gd.braces],
                       "headings": [[h.level, h.kind, h.title, h.space, h.prep, h.count] for h in gd.headings]}
+    from recipe_grid.compiler import compile
+    compile_error = None
     if "exception" in impl:
-        # compile errors of recipe blocks are outside C13 (C07 / C19): not a case
-        if impl["exception"] in ("NameRedefinedError", "ParseError", "ProportionGivenForIngredientError",
-                                 "RecipeCompileError"):
-            return None
-        viol, _ = oracle(gd, text, impl)
-        return Case(input=inp, coq_in="(mkIn (mkDoc [] []) [] [] [] [] [])", coq_out="(mkObs false None [] [])",
-                    impl={"exception": impl["exception"], "msg": impl.get("msg")}, violation=viol,
-                    nontrivial=True, tags=tags + ["exception:" + impl["exception"]])
-    cm, htmls = impl["cm"], impl["htmls"]
-    items, esc = structure(text)
+        viol, notes0 = oracle(gd, text, impl)
+        try:
+            items, esc = structure(text)
+        except Exception:
+            items = None
+        if items is None or not any(n.startswith("compile-error:") for n in notes0):
+            # not a compile error of the blocks: nothing the model can say
+            return Case(input=inp, coq_in="(mkIn (mkDoc [] []) [] [] [] [] [])", coq_out="(ObsOk (mkObs false None [] []))",
+                        impl={"exception": impl["exception"], "msg": impl.get("msg")}, violation=viol,
+                        nontrivial=True, tags=tags + ["exception:" + impl["exception"]])
+        compile_error = impl["exception"]
+    else:
+        cm, htmls = impl["cm"], impl["htmls"]
+        items, esc = structure(text)
     # oracle tables for the model
     blocks = [(it[1], it[2], it) for it in items if it[0] == "code" and is_recipe_block(it[1], it[2])]
     groups = split_groups(blocks)
-    from recipe_grid.compiler import compile
     ctab, rtab = [], []
     for gi, g in enumerate(groups):
         srcs = [padded(text, it[4], it[1], it[3]) for it in g]
-        rs = compile(srcs)
-        ctab.append(c.pair(c.lst([_s(x) for x in srcs], "str"), c.lst([_trees(r) for r in rs], "(list node)")))
+        try:
+            rs = compile(srcs)
+        except Exception:
+            ctab.append(c.pair(c.lst([_s(x) for x in srcs], "str"), "(@None (list (list node)))"))
+            continue
+        ctab.append(c.pair(c.lst([_s(x) for x in srcs], "str"), "(Some " + c.lst([_trees(r) for r in rs], "(list node)") + ")"))
+        if compile_error is not None:
+            continue
         for r in rs:
             tr = _trees(r)
             for k in SCALES:
@@ -508,13 +537,17 @@ def doc_case(text: str, gd: Optional[mdgen.GenDoc], tags: List[str], index: Opti
     coq_in = (f"(mkIn (mkDoc {_s(text)} {c.lst([_item(x) for x in items], 'item')}) "
               f"{c.lst([_s(x) for x in slugs], 'str')} "
               f"{c.lst([c.pair(_s(a), _s(b)) for a, b in esc], '(str * str)')} "
-              f"{c.lst(ctab, '(list str * list (list node))')} "
+              f"{c.lst(ctab, '(list str * option (list (list node)))')} "
               f"{c.lst(rtab, '(num * str * list node * list str)')} "
               f"{c.lst([c.num(k) for k in SCALES], 'num')})")
+    if compile_error is not None:
+        return Case(input=inp, coq_in=coq_in, coq_out="ObsCompileError",
+                    impl={"exception": compile_error, "msg": impl.get("msg"), "recipe_blocks": len(blocks), "groups": len(groups)},
+                    violation=viol, nontrivial=True, tags=tags + notes0 + [f"recipe-blocks:{min(len(blocks), 4)}"])
     rec = c.lst([c.lst([_trees(r) for r in g], "(list node)") for g in cm.recipes], "(list (list node))")
-    coq_out = (f"(mkObs {c.boolean(cm.title is not None)} "
+    coq_out = (f"(ObsOk (mkObs {c.boolean(cm.title is not None)} "
                f"{c.opt(c.n_(cm.servings) if cm.servings is not None else None, 'N')} {rec} "
-               f"{c.lst([_s(h) for h in htmls], 'str')})")
+               f"{c.lst([_s(h) for h in htmls], 'str')}))")
     viol, notes = oracle(gd, text, impl)
     nb = sum(1 for it in items if it[0] == "brace" or (it[0] == "heading" and any(y[0] == "brace" for y in it[2])))
     tags += notes
@@ -566,6 +599,18 @@ HAND_DOCS = [
     "%ABCDEFGHIJKLMNOPQRSTUVWXYZABCDEFG% and %% and 100% {2} `%`\n\n# T for 2\n",
     "# Spam to make 12\n\n{0} {0.0} {1/3} {2 1/3} {10.5} {99999999999999999999}\n",
     "# Tab\tserves\t 7  \n",
+    # empty first headings: the title is "" (not None)
+    "#\n", "# #\n", "#   \n\ntext {2}\n\n    1 egg\n", "# \n\n# Second for 2\n", "##\n\n#\n",
+    # fence tags that merely contain the word recipe
+    "```pseudo-recipe\n1 egg\n```\n\n```old-recipe\n1 egg\n```\n\n```recipes\n1 egg\n```\n\n```recipe\n1 egg\n```\n\n"
+    "```xnew-recipe\n2 egg\n```\n\n```recipe2\n1 egg\n```\n\n```Recipe\n1 egg\n```\n",
+    # empty / blank recipe blocks: compiling them raises ParseError, directly and through compile_markdown
+    "Stub first:\n\n```recipe\n```\n\nThen:\n\n```recipe\nfry(egg)\n```\n\nEnd.\n",
+    "```recipe\nsauce = boil(tomato)\n```\n\nmiddle\n\n~~~recipe\n   \n~~~\n\n```recipe\npour(sauce, pasta)\n```\n",
+    "Only a stub:\n\n```new-recipe\n```\n",
+    "    1 egg\n\n```new-recipe\n\n```\n\n{2}\n",
+    # other compile errors
+    "```recipe\nsauce = boil(tomato)\n```\n\n```recipe\nsauce = fry(egg)\n```\n",
 ]
 
 
@@ -766,7 +811,7 @@ def gen_scan_texts(rng: random.Random, n: int) -> List[Tuple[str, str]]:
 
 def _suites_empty() -> Tuple[Suite, Suite, Suite, Suite]:
     md = Suite(name="markdown", imports=["From RG Require Import Gen.GenChars Model.Recipe Model.Brace Model.Markdown Spec.MarkdownSpec."],
-               in_ty="md_in", out_ty="md_obs", check="check_md_spec", show="show_md", shard=12)
+               in_ty="md_in", out_ty="md_outcome", check="check_md_spec", show="show_md", shard=12)
     bp = Suite(name="brace", imports=["From RG Require Import Model.Recipe Model.Brace."],
                in_ty="str", out_ty="brace_obs", check="check_brace_parse", show="brace_parse", shard=400)
     sc = Suite(name="scan", imports=["From RG Require Import Model.Recipe Model.Brace."],
